@@ -127,6 +127,11 @@ func (rl *ruleLoader) objectEndAfterRuleName(lex lexeme.LexEvent) {
 }
 
 func (rl *ruleLoader) ruleValueBegin(lex lexeme.LexEvent) {
+	if lex.Type() == lexeme.NewLine {
+		// In a multi-line annotation the value of a rule may begin on the line
+		// after its name, like the rules themselves.
+		return
+	}
 	if lex.Type() != lexeme.ObjectValueBegin {
 		panic(errors.ErrLoader)
 	}
